@@ -2,7 +2,7 @@
 (***************************************************************************)
 (* The bounded graph family of C10 and the load machine.                    *)
 (*                                                                          *)
-(* Family, three parts:                                                     *)
+(* Family, five parts (the last two: WrapFamily, LoaderFamily, see there):  *)
 (*  - incidence: bipartite incidence patterns of k entry points over n      *)
 (*    shared modules (module j is imported by the entry points in the       *)
 (*    non-empty set masks[j], a bit mask; patterns up to the order of the   *)
@@ -24,6 +24,15 @@
 (*    export, used or not by the entry point's own code.                    *)
 (*  - name collisions (NameFamily): all modules in one shared chunk that    *)
 (*    exports every binding, in every naming.                               *)
+(*  - wrap kinds (WrapFamily): k entry points reach a shared module, written *)
+(*    as an ES module or in CommonJS syntax, each in its own way (import     *)
+(*    statement, require(), import(), through wrapped / requiring            *)
+(*    intermediates): the wrap kind of every file and the chunk of every     *)
+(*    wrapper symbol (init_x / require_x) follow.                            *)
+(*  - loaders and CSS (LoaderFamily): an import() target parsed by the js,   *)
+(*    ts, tsx or jsx loader that reaches style sheets or not (a JS entry     *)
+(*    point with CSS has a JS chunk and a CSS chunk), also imported by       *)
+(*    statement or not, with a shared JSON module or not.                    *)
 (*                                                                          *)
 (* Init chooses a graph G; Setup computes L == Compute(G) (Link.tla) and,   *)
 (* when Export is TRUE, prints the CASE record: the graph, the resolved     *)
@@ -44,8 +53,10 @@ CONSTANTS Shapes,    \* set of <<k, n>>
           Half,      \* 0 = every pattern; 1, 2 = one half of the patterns (to spread a shape over two TLC runs)
           ChainPick, \* the re-export chain family: 9999 = none, 0 = all of it, n > 0 = the slice (1 of ChainDiv) chosen by n
           ChainDiv,
-          NamePick   \* the name-collision family: 9999 = none, 0 = all of it, n > 0 = k = 2 over 3 modules in every
+          NamePick,  \* the name-collision family: 9999 = none, 0 = all of it, n > 0 = k = 2 over 3 modules in every
                      \* naming and a slice (1 of 8) of the rest chosen by n
+          WrapPick,  \* the wrap-kind family: 9999 = none, 0 = all of it, n > 0 = the label-first slice chosen by n
+          LoaderPick \* the loader / CSS family: 9999 = none, 0 = all of it, n > 0 = the label-first slice chosen by n
 
 VARIABLES label, g, meta, phase, L, designFailing,
           loaded,   \* sequence of user entry points loaded so far
@@ -83,7 +94,7 @@ EntryName(i) == "e" \o ToString(i)
 ModName(j) == "m" \o ToString(j)
 MkFile(name, imports, reexp, dyn, exports) ==
   [name |-> name, imports |-> imports, reexp |-> reexp, dyn |-> dyn, exports |-> exports,
-   sfx |-> "", dflt |-> FALSE, rx |-> <<>>]
+   sfx |-> "", dflt |-> FALSE, rx |-> <<>>, req |-> <<>>, cjs |-> FALSE, ldr |-> "js"]
 Bind(t) == [to |-> t, bind |-> TRUE]
 
 Base(k, n, masks) ==
@@ -212,6 +223,102 @@ NameFamily ==
                                 /\ (Half = 0 \/ (c % 2) + 1 = Half)}}
                 : sh \in NameShapes}
 
+
+(* the wrap-kind family: k entry points reach a shared module s (m1), each   *)
+(* in its own way: not at all, by an import statement, by require(), by      *)
+(* import(), by require() of an intermediate ES module w1 that imports s by  *)
+(* statement (w1 and therefore s are wrapped lazily), by an import statement *)
+(* of an intermediate w2 that require()s s, by an import statement of w1     *)
+(* (wrapped or not, depending on what the other entry points do).  s is      *)
+(* written as an ES module or in CommonJS syntax.  The wrap kind of every    *)
+(* file follows (Link!WrapOf); where s and the intermediates live (a shared  *)
+(* chunk, an entry point's own chunk, the entry chunk of s itself under      *)
+(* import()) follows from the pattern.  m2 is a bystander every entry uses.  *)
+ReachKinds == {"none", "static", "req", "dyn", "viareq", "viastat", "viaw"}
+RIx(x) == CASE x = "none" -> 0 [] x = "static" -> 1 [] x = "req" -> 2 [] x = "dyn" -> 3 [] x = "viareq" -> 4 [] x = "viastat" -> 5 [] OTHER -> 6
+SrcKinds == {"esm", "cjs"}
+WrapParams ==
+  {p \in [sk : SrcKinds, r : UNION {[1..k -> ReachKinds] : k \in {2, 3}}] :
+     /\ \E i \in DOMAIN p.r : p.r[i] # "none"
+     \* (import() of a CommonJS module yields only `default` with splitting and the full namespace without: outside the family)
+     /\ (p.sk = "cjs" => \A i \in DOMAIN p.r : p.r[i] # "dyn")
+     \* three entry points: up to their order
+     /\ (Len(p.r) = 3 => RIx(p.r[1]) <= RIx(p.r[2]) /\ RIx(p.r[2]) <= RIx(p.r[3]))}
+WrapGraph(p) ==
+  LET k  == Len(p.r)
+      sF == k + 1
+      w1 == k + 2
+      w2 == k + 3
+      m2 == k + 4
+      ent(i) ==
+        LET x == p.r[i]
+            base == MkFile(EntryName(i),
+                      (CASE x = "static" -> <<Bind(sF)>> [] x = "viastat" -> <<Bind(w2)>> [] x = "viaw" -> <<Bind(w1)>> [] OTHER -> <<>>) \o <<Bind(m2)>>,
+                      <<>>, IF x = "dyn" THEN <<sF>> ELSE <<>>, TRUE)
+        IN [base EXCEPT !.req = CASE x = "req" -> <<sF>> [] x = "viareq" -> <<w1>> [] OTHER -> <<>>]
+  IN [files |-> [i \in 1..k |-> ent(i)] \o
+                <<[MkFile("m1", <<>>, <<>>, <<>>, TRUE) EXCEPT !.cjs = (p.sk = "cjs")],
+                  MkFile("w1", <<Bind(sF)>>, <<>>, <<>>, TRUE),
+                  [MkFile("w2", <<>>, <<>>, <<>>, TRUE) EXCEPT !.req = <<sF>>],
+                  MkFile("m2", <<>>, <<>>, <<>>, TRUE)>>,
+      entries |-> [i \in 1..k |-> i], splitting |-> TRUE]
+WrapLabel(p) == "wrap:" \o p.sk \o ":" \o JoinStrs(p.r, 1)
+RECURSIVE RHash(_, _)
+RHash(r, i) == IF i > Len(r) THEN 0 ELSE (2 * i + 1) * RIx(r[i]) + RHash(r, i + 1)
+WrapHash(p) == RHash(p.r, 1) + (IF p.sk = "cjs" THEN 4 ELSE 0)
+\* label-first: the patterns every quick run contains, whatever the seed (one per way a wrapper crosses a chunk
+\* boundary: statement import / require() of a lazily wrapped ES module and of a CommonJS module in another chunk,
+\* directly and through wrapped / requiring intermediates, an import() target that is also wrapped)
+WrapCore == {<<"esm", <<"static", "req">>>>, <<"esm", <<"req", "req">>>>, <<"esm", <<"viaw", "viareq">>>>, <<"esm", <<"static", "viastat">>>>,
+             <<"esm", <<"dyn", "req">>>>, <<"cjs", <<"static", "static">>>>, <<"cjs", <<"req", "viaw">>>>}
+WrapFamily ==
+  IF WrapPick = 9999 THEN {}
+  ELSE {[label |-> WrapLabel(p), k |-> Len(p.r), masks |-> <<>>, variant |-> "wrap", graph |-> WrapGraph(p)]
+          : p \in {q \in WrapParams : /\ (WrapPick = 0 \/ <<q.sk, q.r>> \in WrapCore \/ (Len(q.r) = 2 /\ (WrapHash(q) + WrapPick) % 6 = 0))
+                                      /\ (Half = 0 \/ (WrapHash(q) % 2) + 1 = Half)}}
+
+(* the loader / CSS family: e1 import()s the page module p1, which is parsed *)
+(* by the js, ts, tsx or jsx loader and imports a style sheet itself, through *)
+(* a dependency q1, both ways, or not at all; e2 does not know p1, imports it *)
+(* by statement as well, or import()s it too; e2 (parsed by the same loader)  *)
+(* imports a style sheet of its own or not; p1 and e2 share a JSON module or  *)
+(* not.  A JS entry point (user or import() target) that reaches CSS gets a   *)
+(* CSS chunk next to its JS chunk; import() and the entry point metadata      *)
+(* name the JS one.                                                           *)
+PageLoaders == {"js", "ts", "tsx", "jsx"}
+CssModes == {"none", "direct", "dep", "both"}
+AlsoModes == {"no", "static", "dyn2"}
+LoaderParams == [ldr : PageLoaders, css : CssModes, also : AlsoModes, ecss : BOOLEAN, json : BOOLEAN]
+LoaderGraph(p) ==
+  LET p1 == 3  q1 == 4  m2 == 5  pc == 6  qc == 7  ec == 8  data == 9
+      side(t) == [to |-> t, bind |-> FALSE]
+      opt(c, x) == IF c THEN <<x>> ELSE <<>>
+      e1 == MkFile("e1", <<Bind(m2)>>, <<>>, <<p1>>, TRUE)
+      e2 == [MkFile("e2", <<Bind(m2)>> \o opt(p.also = "static", Bind(p1)) \o opt(p.ecss, side(ec)) \o opt(p.json, Bind(data)),
+                    <<>>, IF p.also = "dyn2" THEN <<p1>> ELSE <<>>, TRUE)
+               EXCEPT !.ldr = IF p.ecss THEN p.ldr ELSE "js"]
+      pg == [MkFile("p1", <<Bind(m2)>> \o opt(p.css \in {"dep", "both"}, Bind(q1)) \o opt(p.css \in {"direct", "both"}, side(pc)) \o opt(p.json, Bind(data)),
+                    <<>>, <<>>, TRUE) EXCEPT !.ldr = p.ldr]
+      q  == MkFile("q1", opt(p.css \in {"dep", "both"}, side(qc)), <<>>, <<>>, TRUE)
+      sheet(n) == [MkFile(n, <<>>, <<>>, <<>>, FALSE) EXCEPT !.ldr = "css"]
+      dt == [MkFile("data", <<>>, <<>>, <<>>, FALSE) EXCEPT !.ldr = "json", !.dflt = TRUE]
+  IN [files |-> <<e1, e2, pg, q, MkFile("m2", <<>>, <<>>, <<>>, TRUE), sheet("pc"), sheet("qc"), sheet("ec"), dt>>,
+      entries |-> <<1, 2>>, splitting |-> TRUE]
+LoaderLabel(p) == "ldr:" \o p.ldr \o ":css-" \o p.css \o ":also-" \o p.also \o (IF p.ecss THEN ":ecss" ELSE "") \o (IF p.json THEN ":json" ELSE "")
+LIx(x) == CASE x = "js" -> 0 [] x = "ts" -> 1 [] x = "tsx" -> 2 [] OTHER -> 3
+CIx(x) == CASE x = "none" -> 0 [] x = "direct" -> 1 [] x = "dep" -> 2 [] OTHER -> 3
+LoaderHash(p) == LIx(p.ldr) + 5 * CIx(p.css) + (CASE p.also = "no" -> 0 [] p.also = "static" -> 7 [] OTHER -> 11) + (IF p.ecss THEN 3 ELSE 0) + (IF p.json THEN 13 ELSE 0)
+\* label-first: every quick run has, for every loader kind, an import() target with a CSS sibling chunk (which of the
+\* three CSS modes rotates with the seed) and one where the target is also imported by statement
+LoaderCoreP(p) == /\ ~p.ecss /\ ~p.json
+                  /\ \/ (p.also = "no" /\ CIx(p.css) = 1 + ((LIx(p.ldr) + LoaderPick) % 3))
+                     \/ (p.also = "static" /\ CIx(p.css) = 1 + ((LIx(p.ldr) + LoaderPick + 1) % 3) /\ (LIx(p.ldr) + LoaderPick) % 2 = 0)
+LoaderFamily ==
+  IF LoaderPick = 9999 THEN {}
+  ELSE {[label |-> LoaderLabel(p), k |-> 2, masks |-> <<>>, variant |-> "loader", graph |-> LoaderGraph(p)]
+          : p \in {q \in LoaderParams : /\ (LoaderPick = 0 \/ LoaderCoreP(q) \/ (LoaderHash(q) + LoaderPick) % 12 = 0)
+                                        /\ (Half = 0 \/ (LoaderHash(q) % 2) + 1 = Half)}}
+
 RECURSIVE JoinInts(_, _)
 JoinInts(s, i) == IF i > Len(s) THEN "" ELSE (IF i > 1 THEN "." ELSE "") \o ToString(s[i]) \o JoinInts(s, i + 1)
 LabelOf(k, masks, v) == "k" \o ToString(k) \o ":" \o JoinInts(masks, 1) \o ":" \o v
@@ -240,7 +347,7 @@ IncFamily ==
                    : v \in {w \in Variants : (sh[2] >= 2 \/ w \notin NeedsTwo) /\ Selected(sh[1], m, w)}}
                  : m \in {m2 \in Masks(sh[1], sh[2]) : InHalf(m2)}}
            : sh \in Shapes}
-Family == IncFamily \cup ChainFamily \cup NameFamily
+Family == IncFamily \cup ChainFamily \cup NameFamily \cup WrapFamily \cup LoaderFamily
 
 -----------------------------------------------------------------------------
 (* the observations the specification predicts for a graph *)
@@ -291,8 +398,11 @@ ReadEffects(G, rs) ==
              [] r.kind = "default" -> <<Ev(G, "dflt", r.file, DVal(G, r.file))>>
              [] OTHER              -> <<Ev(G, "ns", r.file, NKeys(G, r.file))>>) \o ReadEffects(G, Tail(rs))
 \* the synchronous effects of the body of f, in order
+\* the body require()s its targets after its helper ran and reports `v` of what it gets
+ReqEffects(G, f) == [i \in 1..Len(G.files[f].req) |->
+                       LET t == G.files[f].req[i] IN Ev(G, "req", t, IF G.files[t].exports THEN Val(G, t) ELSE 0 - 1)]
 EffectsWith(G, f, rs) ==
-  <<Ev(G, "start", f, 0), Ev(G, "helper", f, f)>> \o
+  <<Ev(G, "start", f, 0), Ev(G, "helper", f, f)>> \o ReqEffects(G, f) \o
   (IF G.files[f].exports THEN <<Ev(G, "own", f, Val(G, f))>> ELSE <<>>) \o
   ReadEffects(G, rs) \o
   <<Ev(G, "end", f, 0)>>
@@ -312,14 +422,33 @@ AsyncEffects(G, f) == AsyncFrom(G, f, 1)
 Names(G, S) == {G.files[f].name : f \in S}
 IdOf(G, nm) == CHOOSE f \in FileIds(G) : G.files[f].name = nm
 \* loading a set of user entry points to quiescence (all dynamic imports fired)
-LoadedBy(G, S) == Reach(AllChildren(G), SortInts(S))
+LoadedBy(G, S) == {f \in Reach(AllChildren(G), SortInts(S)) : IsJS(G, f)}
 \* value of `c` of t: every loaded module bumps it once per binding path at top level
 CounterWith(bt, ld, t) == Cardinality({p \in UNION {{<<m, i>> : i \in 1..Len(bt[m])} : m \in ld} : bt[p[1]][p[2]] = t})
 Counter(G, ld, t) == CounterWith([m \in FileIds(G) |-> BindTargets(G, m)], ld, t)
 
+\* feature labels of a graph (what the quick slice is balanced over, and what the evidence counts)
+Features(G, LL) ==
+  LET live == LiveFiles(LL)
+      xw(kind, how) == \E u \in LL.uses : /\ u.name = "wrapper" /\ LL.files[u.file].wrap = kind
+                                            /\ ChunkOfFile(LL, u.by) # ChunkOfFile(LL, u.file)
+                                            /\ (how = "req") = (u.file \in ReqTargets(G, u.by))
+  IN (IF \E f \in live : LL.files[f].wrap = "esm" THEN {"wrap-esm"} ELSE {}) \cup
+     (IF \E f \in live : LL.files[f].wrap = "cjs" THEN {"wrap-cjs"} ELSE {}) \cup
+     (IF xw("esm", "stmt") THEN {"xchunk-init-by-import-statement"} ELSE {}) \cup
+     (IF xw("esm", "req") THEN {"xchunk-init-by-require"} ELSE {}) \cup
+     (IF xw("cjs", "stmt") THEN {"xchunk-require-by-import-statement"} ELSE {}) \cup
+     (IF xw("cjs", "req") THEN {"xchunk-require-by-require"} ELSE {}) \cup
+     (IF \E f \in live : LL.files[f].wrap # "none" /\ LL.files[f].isEntry THEN {"wrapped-entry"} ELSE {}) \cup
+     (IF CSSChunkIds(LL) # {} THEN {"css-chunk"} ELSE {}) \cup
+     {"dyn-target-" \o G.files[t].ldr \o (IF CssOf(G, t) # {} THEN "-css" ELSE "") : t \in DynEntries(G) \ UserEntries(G)} \cup
+     (IF \E e \in UserEntries(G) : CssOf(G, e) # {} /\ \E f \in CssOf(G, e) : e \in LL.files[f].bits THEN {"user-entry-css"} ELSE {}) \cup
+     (IF \E f \in live : G.files[f].ldr = "json" THEN {"json"} ELSE {})
+
 CaseRec(lab, k, masks, variant, G, LL) ==
   LET ids == FileIds(G)
-      nms == Names(G, ids)
+      nms == Names(G, {f \in ids : HasBody(G, f)})
+      Obs(S) == {f \in S : HasBody(G, f)}
       nm(f) == G.files[f].name
       rd  == TLCEval([f \in ids |-> Reads(G, f)])
       bt  == TLCEval([f \in ids |-> LET r == SelectSeq(rd[f], LAMBDA x : x.kind = "triple") IN [i \in 1..Len(r) |-> r[i].file]])
@@ -328,7 +457,8 @@ CaseRec(lab, k, masks, variant, G, LL) ==
        label   |-> lab, k |-> k, masks |-> masks, variant |-> variant,
        files   |-> [f \in ids |->
                       [ name |-> G.files[f].name, base |-> f, exports |-> G.files[f].exports,
-                        sfx |-> G.files[f].sfx, dflt |-> G.files[f].dflt,
+                        sfx |-> G.files[f].sfx, dflt |-> G.files[f].dflt, cjs |-> G.files[f].cjs, ldr |-> G.files[f].ldr,
+                        req |-> [i \in DOMAIN G.files[f].req |-> nm(G.files[f].req[i])],
                         imports |-> [i \in DOMAIN G.files[f].imports |->
                                        [to |-> G.files[G.files[f].imports[i].to].name, bind |-> G.files[f].imports[i].bind]],
                         reexp |-> [i \in DOMAIN G.files[f].reexp |-> G.files[G.files[f].reexp[i]].name],
@@ -338,7 +468,14 @@ CaseRec(lab, k, masks, variant, G, LL) ==
        expect  |->
          [ allEntries |-> Names(G, LL.entries),
            live    |-> Names(G, LiveFiles(LL)),
+           wrap    |-> [n \in Names(G, LiveFiles(LL)) |-> LL.files[IdOf(G, n)].wrap],
+           \* the symbols the rendered bodies really read (an importer of an entry point imports its observers peek_e /
+           \* poke_e but does not read them: the bundler may drop that import)
+           uses    |-> {[by |-> nm(u.by), file |-> nm(u.file), name |-> u.name]
+                          : u \in {u2 \in LL.uses : \A q \in {"peek", "poke"} : u2.name # ObserverName(G, u2.file, q)}},
+           features |-> Features(G, LL),
            chunks  |-> {[ bits  |-> Names(G, LL.chunks[c].bits),
+                          kind  |-> LL.chunks[c].kind,
                           files |-> Names(G, LL.chunks[c].files),
                           entry |-> IF LL.chunks[c].isEntry THEN G.files[LL.chunks[c].entry].name ELSE "",
                           static  |-> {Names(G, LL.chunks[d].bits) : d \in StaticImports(LL, c)},
@@ -346,8 +483,8 @@ CaseRec(lab, k, masks, variant, G, LL) ==
                           exports |-> {[alias |-> x.alias, file |-> nm(x.file), name |-> x.name] : x \in LL.chunks[c].exports} ]
                          : c \in ChunkIds(LL)},
            shared  |-> Cardinality({c \in ChunkIds(LL) : ~LL.chunks[c].isEntry}),
-           val     |-> [n \in nms |-> Val(G, IdOf(G, n))],
-           dval    |-> [n \in nms |-> DVal(G, IdOf(G, n))],
+           val     |-> [n \in Names(G, ids) |-> Val(G, IdOf(G, n))],
+           dval    |-> [n \in Names(G, ids) |-> DVal(G, IdOf(G, n))],
            effects |-> [n \in nms |-> EffectsWith(G, IdOf(G, n), rd[IdOf(G, n)])],
            async   |-> [n \in nms |-> AsyncEffects(G, IdOf(G, n))],
            reads   |-> [n \in nms |-> LET r == rd[IdOf(G, n)]
@@ -357,10 +494,10 @@ CaseRec(lab, k, masks, variant, G, LL) ==
            tables  |-> [n \in Names(G, LiveFiles(LL)) |->
                           {[alias |-> x.alias, file |-> nm(x.file), name |-> x.name, kind |-> x.kind] : x \in tab[IdOf(G, n)]}],
            \* what loading an entry point (user or dynamic) evaluates at once: its static closure
-           closure |-> [n \in Names(G, LL.entries) |-> Names(G, Reach(SrcChildren(G), <<IdOf(G, n)>>))],
+           closure |-> [n \in Names(G, LL.entries) |-> Names(G, Obs(Reach(SrcChildren(G), <<IdOf(G, n)>>)))],
            subsets |-> {[ entries |-> Names(G, S),
-                          loaded  |-> Names(G, LoadedBy(G, S)),
-                          c |-> [n \in Names(G, LoadedBy(G, S)) |-> CounterWith(bt, LoadedBy(G, S), IdOf(G, n))] ]
+                          loaded  |-> Names(G, Obs(LoadedBy(G, S))),
+                          c |-> [n \in Names(G, Obs(LoadedBy(G, S))) |-> CounterWith(bt, LoadedBy(G, S), IdOf(G, n))] ]
                           : S \in (SUBSET UserEntries(G)) \ {{}}} ] ]
 
 -----------------------------------------------------------------------------
@@ -391,16 +528,41 @@ Setup ==
 
 Count(s, x) == Cardinality({i \in 1..Len(s) : s[i] = x})
 \* load the entry chunk of e (a user entry point or a dynamic import target) in both semantics
+\* Evaluating chunks runs the bodies of their files in chunk order, except that the body of a wrapped file (init_x /
+\* require_x) runs when it is first called: by the body of a file that imports it by statement or require()s it.
+\* wch: file -> the wrapped files its body calls, in order; acc = [seen, order]: bodies that ran.
+RECURSIVE RunFiles(_, _, _, _)
+RunFiles(wch, Wall, fs, acc) ==
+  IF fs = <<>> THEN acc
+  ELSE LET f == Head(fs)
+       IN IF f \in Wall THEN RunFiles(wch, Wall, Tail(fs), acc)
+          ELSE LET a1 == POSeq(wch, wch[f], acc)
+               IN RunFiles(wch, Wall, Tail(fs), [a1 EXCEPT !.order = Append(@, f)])
+\* the entry chunk of a wrapped entry point calls the wrapper of the entry point after the bodies of its files
+RECURSIVE RunChunks(_, _, _, _, _)
+RunChunks(LL, wch, Wall, cs, acc) ==
+  IF cs = <<>> THEN acc
+  ELSE LET ch == LL.chunks[Head(cs)]
+           a1 == RunFiles(wch, Wall, ch.order, acc)
+           a2 == IF ch.isEntry /\ ch.entry \in Wall THEN PO(wch, ch.entry, a1) ELSE a1
+       IN RunChunks(LL, wch, Wall, Tail(cs), a2)
 LoadStep(e) ==
   LET ord    == SrcEvalOrder(g, e, evSrc)
       cs     == ChunkEvalOrder(L, e, evCh)
-      bodies == Flatten(L, cs)
+      Wall   == {f \in FileIds(g) : L.files[f].wrap # "none"}
+      wch    == [f \in FileIds(g) |-> SelectSeq(SrcChildren(g)[f], LAMBDA t : t \in Wall)]
+      bodies == RunChunks(L, wch, Wall, cs, [seen |-> {f \in DOMAIN runs : runs[f] > 0}, order |-> <<>>]).order
   IN /\ evSrc' = evSrc \cup SeqToSet(ord)
      /\ evCh' = evCh \cup SeqToSet(cs)
      /\ runs' = [f \in DOMAIN runs |-> runs[f] + Count(bodies, f)]
-     /\ bad' = (bad \/ \E i \in 1..Len(bodies) : \E u \in L.uses :
-                         /\ u.by = bodies[i] /\ u.file # bodies[i]
-                         /\ runs[u.file] = 0 /\ \A j \in 1..(i - 1) : bodies[j] # u.file)
+     /\ bad' = (\/ bad
+                \/ \E i \in 1..Len(bodies) : \E u \in L.uses :
+                         /\ u.by = bodies[i] /\ u.file # bodies[i] /\ u.name # "wrapper"
+                         /\ runs[u.file] = 0 /\ \A j \in 1..(i - 1) : bodies[j] # u.file
+                \* a wrapper that is called is defined: its chunk is evaluated
+                \/ \E i \in 1..Len(bodies) : \E u \in L.uses :
+                         /\ u.by = bodies[i] /\ u.name = "wrapper"
+                         /\ ChunkOfFile(L, u.file) \notin (evCh \cup SeqToSet(cs)))
 
 LoadEntry(e) ==
   /\ phase = "linked"
